@@ -18,6 +18,10 @@
 (*                   HMAC of the declarative RFC digest                    *)
 (*   UnsignedBound   99 unsigned answers in a row are accepted, the 100th  *)
 (*                   is TooManyUnsigned; the last answer must be signed    *)
+(*   AcceptedWasSigned  whenever a receiver accepts a signed message, the  *)
+(*                   digest RFC 8945 4.3.3 defines for the message *as     *)
+(*                   received* (owner / algorithm name, CLASS, TTL of the  *)
+(*                   record included) is one the key holder signed         *)
 (* The same module generates the S->I behaviours (Emit).                   *)
 (***************************************************************************)
 EXTENDS Tsig, TLC, Json
@@ -31,7 +35,8 @@ CONSTANTS KeyCfgs,    \* set of [alg, cs, cm, ss, sm]: signing_len / min_mac_len
           FaultsOn,   \* BOOLEAN: adversary enabled
           RcKeys,     \* key configurations for which the RCODE / TSIG-error dimension of answers is explored
           Retries,    \* how often the client may compose (sign) the request again before it is answered
-          T0          \* the client's clock (SymTime for the behaviours run through the wrappers)
+          T0,         \* the client's clock (SymTime for the behaviours run through the wrappers)
+          StructKinds \* structural mutations of the TSIG record the adversary may apply
 
 VARIABLES cfg, pc, net, pre, fault, cli, srv, rfc, macs, nans, g, hist, outs
 vars == <<cfg, pc, net, pre, fault, cli, srv, rfc, macs, nans, g, hist, outs>>
@@ -70,7 +75,13 @@ Abs(x) == IF x < 0 THEN -x ELSE x
 \* the key name, truncation to a length the receiver's policy accepts, and -
 \* RFC 8945 5.3.1 - the error / other fields of the second and later answers
 \* of a sequence, whose digest covers only the timers
-Benign == {"none", "RewriteId", "RecaseKey", "TruncOk", "TimersOnly"}
+\* ... and what leaves the signed content alone but a receiver may refuse
+\* (DESIGN 7): another spelling of the algorithm name (names compare
+\* case-insensitively, the digest takes the canonical form), compressed names
+\* (RFC 8945 4.2: the algorithm name MUST NOT be compressed; nothing is said
+\* about the owner), CLASS / TTL of the record of a second or later answer
+Benign == {"none", "RewriteId", "RecaseKey", "TruncOk", "TimersOnly",
+           "AlgUpper", "AlgCompressed", "KeyCompressed", "FormatOnly"}
 
 --------------------------------------------------------------------------
 (* The error RFC 8945 assigns (5.2, 5.2.1 - 5.2.3, 5.3.1); sets where the  *)
@@ -88,6 +99,19 @@ ExpectAfter(kind, side, first, uns) ==
     [] kind = "ExtendWithin" -> IF side = "srv" THEN {"BADSIG"} ELSE {"BadSig"}
     [] kind = "TruncShort" -> IF side = "srv" THEN {"BADTRUNC", "FORMERR"} ELSE {"BadTrunc", "FormErr"}
     [] kind \in {"RenameKey", "SwapAlg"} -> IF side = "srv" THEN {"BADKEY"} ELSE {"BadKey"}
+    \* RFC 8945 5.2.1: a name that is not the name of the key / of a supported
+    \* algorithm - more labels, fewer labels - is an unknown key
+    [] kind \in {"AlgExtra", "AlgDouble", "AlgSigAlg", "AlgRoot", "AlgPrefix", "KeyExtra", "KeyFewer", "KeyRoot"}
+         -> IF side = "srv" THEN {"BADKEY"} ELSE {"BadKey"}
+    [] kind = "AlgUpper" -> IF side = "srv" THEN {"Ok", "BADKEY"} ELSE {"Ok", "BadKey"}
+    [] kind \in {"AlgCompressed", "KeyCompressed"} -> IF side = "srv" THEN {"Ok", "FORMERR"} ELSE {"Ok", "FormErr"}
+    \* RFC 8945 5.2: a TSIG RR that cannot be interpreted
+    [] kind \in {"AlgBadPtr", "KeyBadPtr", "RdTrail", "RdLong", "RdShort", "OtherLenLong"}
+         -> IF side = "srv" THEN {"FORMERR"} ELSE {"FormErr"}
+    \* RFC 8945 4.2: CLASS MUST be ANY, TTL MUST be 0; both are digest input
+    \* (4.3.3), so such a record can never verify
+    [] kind \in {"ClassIn", "ClassNone", "TtlOne"} -> IF side = "srv" THEN {"FORMERR", "BADSIG"} ELSE {"FormErr", "BadSig"}
+    [] kind = "FormatOnly" -> {"Ok", "FormErr"}
     [] kind \in {"MoveTsig", "DupTsig"} -> IF side = "srv" THEN {"FORMERR"} ELSE {"FormErr"}
     [] kind = "StripTsig" -> IF side = "srv" THEN {"Unsigned"}
                              ELSE IF first THEN {"ServerUnsigned"}
@@ -114,7 +138,7 @@ Init ==
   /\ rfc = [prior |-> <<>>, pending |-> <<>>, first |-> TRUE]
   /\ macs = <<>> /\ nans = 0
   /\ g = [req |-> Msg(0, 0, 0, 1), reqv |-> Msg(0, 0, 0, 1), err |-> "", etime |-> 0, efudge |-> 0,
-          smac |-> <<>>, expect |-> {"Ok"}, got |-> "Ok", restored |-> TRUE, layout |-> TRUE,
+          smac |-> <<>>, expect |-> {"Ok"}, got |-> "Ok", restored |-> TRUE, layout |-> TRUE, signed |-> TRUE,
           rejected |-> FALSE, run |-> 0, composed |-> 1]
   /\ hist = <<>> /\ outs = <<>>
 
@@ -162,14 +186,17 @@ Side == IF pc = "net1" THEN "srv" ELSE "cli"
 RecvMin == IF pc = "net1" THEN cfg.kc.sm ELSE cfg.kc.cm
 M0 == Head(net).msg
 WithTsig(m, t) == [m EXCEPT !.recs = Append(SubSeq(@, 1, Len(@) - 1), t)]
+ClassTtlKinds == {"ClassIn", "ClassNone", "TtlOne"}
 Effective(kind) == IF kind \in {"SetErr", "SetOther6"} /\ pc = "net2" /\ cfg.mode = "seq" /\ ~cli.first
-                   THEN "TimersOnly" ELSE kind
+                   THEN "TimersOnly"
+                   ELSE IF kind \in ClassTtlKinds /\ pc = "net2" /\ cfg.mode = "seq" /\ ~cli.first
+                   THEN "FormatOnly" ELSE kind
 Tamper(kind, arg, m) ==
   /\ net' = <<[msg |-> m, rep |-> 1]>> \o Tail(net)
   /\ fault' = Effective(kind)
   /\ g' = [g EXCEPT !.expect = ExpectAfter(Effective(kind), Side, cli.first, cli.unsigned)]
   /\ hist' = Append(hist, [op |-> "adv", kind |-> kind, arg |-> arg])
-  /\ outs' = Append(outs, [res |-> "Ok"])
+  /\ outs' = Append(outs, [res |-> "Ok", allow |-> ExpectAfter(Effective(kind), Side, cli.first, cli.unsigned)])
   /\ UNCHANGED <<cfg, pc, pre, cli, srv, rfc, macs, nans>>
 
 AdvFlipBody == CanTamper /\ Tamper("FlipBody", 0, [M0 EXCEPT !.body = <<@[1] + 100>>])
@@ -184,8 +211,9 @@ AdvExtendMac == CanTamper /\ \E n \in {1, 16} :
                 Tamper(IF Len(LastRec(M0).mac) + n > Native(cfg.kc.alg) THEN "ExtendMac" ELSE "ExtendWithin", n,
                        WithTsig(M0, [LastRec(M0) EXCEPT !.mac = @ \o [i \in 1..n |-> 998]]))
 AdvRenameKey == CanTamper /\ Tamper("RenameKey", 0, WithTsig(M0, [LastRec(M0) EXCEPT !.name = KeyNameX]))
-AdvRecaseKey == CanTamper /\ pc = "net2" /\
-                Tamper("RecaseKey", 0, WithTsig(M0, [LastRec(M0) EXCEPT !.name = KeyNameC]))
+\* the other side's spelling of the key name
+AdvRecaseKey == CanTamper /\
+                Tamper("RecaseKey", 0, WithTsig(M0, [LastRec(M0) EXCEPT !.name = IF pc = "net2" THEN KeyNameC ELSE KeyNameS]))
 AdvSwapAlg == CanTamper /\ \E a \in {"md5", IF cfg.kc.alg = "sha256" THEN "sha1" ELSE "sha256"} :
                 Tamper("SwapAlg", a, WithTsig(M0, [LastRec(M0) EXCEPT !.alg = AlgWire(a)]))
 AdvChangeOrigId == CanTamper /\ Tamper("ChangeOrigId", 1, WithTsig(M0, [LastRec(M0) EXCEPT !.oid = @ + 1]))
@@ -199,6 +227,45 @@ AdvSetErr == CanTamper /\ \E e \in {BADSIG, BADKEY, BADTIME} :
                 Tamper("SetErr", e, WithTsig(M0, [LastRec(M0) EXCEPT !.err = e]))
 AdvSetOther == CanTamper /\ \E o \in {<<1, 2>>, EncU48(5)} :
                 Tamper(IF Len(o) = 6 THEN "SetOther6" ELSE "SetOther", Len(o), WithTsig(M0, [LastRec(M0) EXCEPT !.other = o]))
+\* The names of the record as names: labels appended, labels removed, another
+\* spelling, compressed (a pointer to the root label that the second flags
+\* octet of a request / NOERROR answer happens to be), a pointer that points
+\* nowhere
+Front(w) == SubSeq(w, 1, Len(w) - 1)
+Upper(b) == IF b >= 97 /\ b <= 122 THEN b - 32 ELSE b
+LblExample == <<101, 120, 97, 109, 112, 108, 101>>
+LblSigAlg == <<115, 105, 103, 45, 97, 108, 103>>
+LblReg == <<114, 101, 103>>
+LblInt == <<105, 110, 116>>
+NameVariant(kind, w) ==
+  CASE kind \in {"AlgExtra", "KeyExtra"} -> Front(w) \o NameOf(<<LblExample>>)
+    [] kind = "AlgDouble" -> Front(w) \o w
+    [] kind = "AlgSigAlg" -> Front(w) \o NameOf(<<LblSigAlg, LblReg, LblInt>>)
+    [] kind \in {"AlgRoot", "KeyRoot"} -> <<0>>
+    [] kind = "AlgPrefix" -> <<1, 120>> \o w
+    [] kind = "KeyFewer" -> SubSeq(w, w[1] + 2, Len(w))
+    [] kind = "AlgUpper" -> [i \in 1..Len(w) |-> Upper(w[i])]
+    [] kind \in {"AlgCompressed", "KeyCompressed"} -> Front(w) \o <<192, 3>>
+    [] kind \in {"AlgBadPtr", "KeyBadPtr"} -> Front(w) \o <<255, 255>>
+AlgKinds == {"AlgExtra", "AlgDouble", "AlgSigAlg", "AlgRoot", "AlgPrefix", "AlgUpper", "AlgCompressed", "AlgBadPtr"}
+KeyKinds == {"KeyExtra", "KeyFewer", "KeyRoot", "KeyCompressed", "KeyBadPtr"}
+AdvAlgName == CanTamper /\ \E k \in AlgKinds \cap StructKinds :
+                Tamper(k, 0, WithTsig(M0, [LastRec(M0) EXCEPT !.alg = NameVariant(k, @)]))
+AdvKeyName == CanTamper /\ \E k \in KeyKinds \cap StructKinds :
+                Tamper(k, 0, WithTsig(M0, [LastRec(M0) EXCEPT !.name = NameVariant(k, @)]))
+\* CLASS / TTL of the TSIG RR
+AdvClassTtl == CanTamper /\ \E k \in ClassTtlKinds \cap StructKinds :
+                Tamper(k, 0, WithTsig(M0, CASE k = "ClassIn" -> [LastRec(M0) EXCEPT !.cls = 1]
+                                            [] k = "ClassNone" -> [LastRec(M0) EXCEPT !.cls = 254]
+                                            [] OTHER -> [LastRec(M0) EXCEPT !.ttl = 1]))
+\* lengths that disagree: an octet behind Other Data inside the RDATA, RDLENGTH
+\* beyond the end of the message, RDLENGTH that cuts the RDATA short, Other Len
+\* that announces other-data that is not there
+AdvLengths == CanTamper /\ \E k \in {"RdTrail", "RdLong", "RdShort", "OtherLenLong"} \cap StructKinds :
+                Tamper(k, 0, WithTsig(M0, CASE k = "RdTrail" -> [LastRec(M0) EXCEPT !.rdx = <<0>>]
+                                            [] k = "RdLong" -> [LastRec(M0) EXCEPT !.rdadj = 1]
+                                            [] k = "RdShort" -> [LastRec(M0) EXCEPT !.rdadj = -1]
+                                            [] OTHER -> [LastRec(M0) EXCEPT !.oladj = 6]))
 \* a forged "unsigned error" answer: RCODE NOTAUTH and a TSIG error code
 AdvForgeErr == CanTamper /\ pc = "net2" /\ \E e \in {BADSIG, BADKEY, BADTIME} :
                 Tamper(CASE e = BADSIG -> "ForgeBadSig" [] e = BADKEY -> "ForgeBadKey" [] OTHER -> "ForgeBadTime",
@@ -217,7 +284,7 @@ AdvInsertUnsigned ==
 Adversary == \/ AdvFlipBody \/ AdvFlipMac \/ AdvTruncMac \/ AdvExtendMac \/ AdvRenameKey \/ AdvRecaseKey
              \/ AdvSwapAlg \/ AdvChangeOrigId \/ AdvRewriteId \/ AdvShiftTime \/ AdvStripTsig
              \/ AdvMoveTsig \/ AdvDupTsig \/ AdvSetErr \/ AdvSetOther \/ AdvForgeErr
-             \/ AdvInsertUnsigned
+             \/ AdvInsertUnsigned \/ AdvAlgName \/ AdvKeyName \/ AdvClassTtl \/ AdvLengths
 
 --------------------------------------------------------------------------
 (* The server *)
@@ -232,6 +299,8 @@ ServerRequest ==
         /\ g' = [g EXCEPT !.req = m, !.reqv = r.msg, !.err = r.res, !.etime = r.etime, !.efudge = r.efudge,
                           !.smac = IF FromMessage(m) = "Found" THEN LastRec(m).mac ELSE <<>>,
                           !.got = r.res, !.restored = @ /\ (r.res = "Ok" => r.msg = pre),
+                          !.signed = @ /\ (r.res = "Ok" =>
+                                MacIsOf(macs, SKey.alg, SKey.sec, RfcRecvDigest(<<>>, m, FALSE), LastRec(m).mac)),
                           !.rejected = @ \/ r.res # "Ok"]
         /\ pc' = CASE r.res = "Ok" -> "s_ans" [] r.res = "Unsigned" -> "done" [] OTHER -> "s_err"
         /\ Log([op |-> "s_request", now |-> NowS],
@@ -338,6 +407,9 @@ ClientAnswer ==
      IN /\ cli' = r.cs
         /\ g' = [g EXCEPT !.got = r.res,
                           !.restored = @ /\ ((r.res = "Ok" /\ signed) => r.msg = pre),
+                          !.signed = @ /\ ((r.res = "Ok" /\ signed /\ e.rep = 1) =>
+                                MacIsOf(macs, CKey.alg, CKey.sec,
+                                        RfcRecvDigest(cli.ctx, e.msg, cfg.mode = "seq" /\ ~cli.first), LastRec(e.msg).mac)),
                           !.rejected = @ \/ r.res # "Ok"]
         /\ Log([op |-> "c_answer", now |-> NowC, rep |-> e.rep],
                [res |-> r.res, restored |-> r.res = "Ok" /\ signed /\ r.msg = pre, left |-> r.left])
@@ -402,6 +474,7 @@ PolicyRejected ==
         /\ hist # <<>> /\ LastOp = "c_answer") => g.got = "BadTrunc"
 NoPanic == \A i \in 1..Len(outs) : outs[i].res # "panic"
 RestoresOctets == g.restored
+AcceptedWasSigned == g.signed
 LayoutFollowsRfc == g.layout
 \* RFC 8945 5.3.1: up to 99 unsigned answers in a row, the last answer signed
 UnsignedBound ==
@@ -436,6 +509,11 @@ ClocksNone == { <<0, 0>> }
 RcKeysQuick == { KC("sha256", 32, 32, 32, 32) }
 RcKeysThorough == { KC("sha256", 32, 32, 32, 32), KC("sha256", 16, 16, 16, 16), KC("sha1", 10, 10, 20, 10) }
 RcKeysNone == {}
+\* structural mutations of the TSIG record
+StructAll == AlgKinds \cup KeyKinds \cup ClassTtlKinds \cup {"RdTrail", "RdLong", "RdShort", "OtherLenLong"}
+StructNone == {}
+\* ... without CLASS / TTL (the wrappers' run while D_tsig_class_ttl_unchecked is open)
+StructNoClassTtl == StructAll \ ClassTtlKinds
 
 --------------------------------------------------------------------------
 (* S->I: one case per finished behaviour *)
